@@ -96,7 +96,15 @@ Rarely(dummy) == IF Mode = "sim" THEN RandomElement(1..3) = 1 ELSE TRUE
 OkUn(op, a) == IF op \in UnsupUn THEN ~HasRej /\ SafeArg(a.e) /\ Rarely(a)
                ELSE IF IsRej(a) THEN op \in {"neg", "exp", "log"}
                ELSE TRUE
+\* a negative base is only raised to a LITERAL integer: an exponent that is an integer only after exact
+\* cancellation (log(exp(1/4)) / log(exp(t)) at t = 1/4) is 1.0000000000000002 in floating point, and a negative
+\* number to that power is not a real number - a tie the generators avoid like Heaviside at 0
+NegRat(val) == val.st = "ok" /\ IsRational(val.v) /\ RatOf(val.v)[1] < 0
+LiteralInt(e) == IF e.k = "num" THEN e.q[2] = 1
+                 ELSE IF e.k = "neg" THEN e.a[1].k = "num" /\ e.a[1].q[2] = 1 ELSE FALSE
+PowSafe(op, a, b) == IF op = "pow" /\ (NegRat(a.v) \/ NegRat(a.w)) THEN LiteralInt(b.e) ELSE TRUE
 OkBin(op, a, b) ==
+    IF ~PowSafe(op, a, b) THEN FALSE ELSE
     IF op \in UnsupBin
     THEN ~HasRej /\ Rarely(a) /\ (SafeArg(a.e) \/ NumLeaf(a.e)) /\ (SafeArg(b.e) \/ NumLeaf(b.e))
          /\ (SafeArg(a.e) \/ SafeArg(b.e))
